@@ -32,6 +32,9 @@ KNOWN_TOKENS = {
     "rmw-ringbuffer-too-many-read-ports": lambda kv, kind, t: kind == "reject" and "too many read ports" in t and kv.get("type") != "S",
     "stratix10-device-string": lambda kv, kind, t: kind == "reject" and kv.get("dev") == "stratix10" and "lexical cast" in t,
     "three-write-ports-unresolved-collision": lambda kv, kind, t: kind == "collision" and n_writes(kv) >= 3,
+    # kind "mismatch": t = the oracle tolerance under which the mismatch disappears (see compare())
+    "depth-cascade-select-ignores-read-enable": lambda kv, kind, t: kind == "mismatch" and "en_stall" in t,
+    "depth-cascade-aliases-out-of-range-write": lambda kv, kind, t: kind == "mismatch" and "oor_alias" in t,
 }
 
 
@@ -66,6 +69,8 @@ def design_rule(kv, text):
         return "bram-needs-read-register"
     if "No suitable memory configuration" in text:
         return "no-such-memory-on-device"
+    if "retiming error" in text and any(p["kind"] == "N" for p in parse_ports(kv.get("ports", ""))) and ":r" in kv.get("ports", ""):
+        return "read-enable-registers-with-rmw-not-retimable"
     return None
 
 
@@ -161,7 +166,7 @@ def gen_large(rng, n, tag):
                "intel_mlab": rng.choice(["arria10", "cyclone10", "agilex"]), "generic": "none"}[fam]
         typ = {"xil_bram": rng.choice("MMD"), "xil_lutram": "S", "intel_bram": rng.choice("MD"), "intel_mlab": "S", "generic": "D"}[fam]
         lat = rng.choice([-1, -1, 1, 2, 2, 3])
-        ports = rng.choice(["R0,W1:p", "W1:p,R0", "N0,W1:p", "N0,W1:p", "W0:p,N0", "R0,W0:r0+", "N0,W0:r0^", "R0"])
+        ports = rng.choice(["R0,W1:p", "W1:p,R0", "N0,W1:p", "N0,W1:p", "W0:p,N0", "R0,W0:r0+", "R0,W0:r0^", "R0"])
         init = rng.choice(["none", "none", "zero", "fill", "part"])
         if ports == "R0":
             init = "fill"
@@ -306,7 +311,7 @@ class SparseMem:
         return c
 
 
-def oracle(kv, hdr, lines, stats):
+def oracle(kv, hdr, lines, stats, tolerate=()):
     """python dict/list based array model.  Returns list of (cycle, port, expected, observed)."""
     depth = int(kv["depth"]); width = int(kv["width"]); nc = kv["nc"] == "1"
     L = int(hdr["L"]); ports = parse_ports(kv["ports"])
@@ -413,6 +418,19 @@ def oracle(kv, hdr, lines, stats):
                         mem[a] = data
                 else:
                     stats["oor_write"] += 1
+                    if "oor_alias" in tolerate:
+                        # known finding depth-cascade-aliases-out-of-range-write: words whose address arises from the
+                        # out-of-range address by dropping address bits may have been overwritten
+                        if bin(a).count("1") > 12:
+                            mem.nuke()
+                        else:
+                            sub = a
+                            while True:
+                                if sub < depth:
+                                    mem[sub] = None
+                                if sub == 0:
+                                    break
+                                sub = (sub - 1) & a
                 writes.append((a, data))
         if f["tag"] == "p":
             if any(p["kind"] == "A" for p in ports):
@@ -425,6 +443,9 @@ def oracle(kv, hdr, lines, stats):
             e = pipes[k][-1] if L else rd
             if pens[k] and L:
                 pipes[k] = [rd] + pipes[k][:-1]
+            elif L and "en_stall" in tolerate:
+                # known finding depth-cascade-select-ignores-read-enable: everything in flight during a stall is open
+                pipes[k] = [ANY] * L
             if e is ANY or e is None or e is UNK:
                 continue
             stats["reads_checked"] += 1
@@ -503,8 +524,7 @@ def compare(agg, log, model, known_tokens, expect=None):
             agg.errs.append(dict(case="M " + cs["line"], what="the library threw while building / post-processing / simulating a legal design",
                                  observed=re.sub(r"^X \S+ ", "", text)[:400]))
             continue
-        if exp:
-            agg.fixed_now.append((exp, cs["line"]))
+        nknown_before = len(agg.known)
         pp = kv["pp"] == "1"
         ncyc = sum(1 for l in cs["lines"] if l[0] == "c")
         agg.cycles += ncyc
@@ -524,13 +544,34 @@ def compare(agg, log, model, known_tokens, expect=None):
         agg.hashes.add(h)
         if (st["fwd_hit"] or st["ww_collision"] or st["read_after_write_next_cycle"]) and st["reads_checked"]:
             agg.nontrivial.add(h)
-        if bad:
+        excused = False
+        if bad and pp and "depthMuxSplit" in mp:
+            # the two recorded memtools::splitMemoryAlongDepthMux findings: accepted only if the design has the trigger AND
+            # the mismatch disappears when the oracle tolerates exactly that effect
+            depth = int(kv["depth"])
+            cand = []
+            if any(p["kind"] == "N" for p in parse_ports(kv["ports"])) and st["read_enable_low"]:
+                cand.append("en_stall")
+            if depth & (depth - 1) and st["oor_write"]:
+                cand.append("oor_alias")
+            for tol in [(c,) for c in cand] + ([tuple(cand)] if len(cand) == 2 else []):
+                if not oracle(kv, cs["hdr"], cs["lines"], collections.Counter(), tolerate=tol):
+                    toks = [t for t, pred in KNOWN_TOKENS.items() if pred(kv, "mismatch", tol)]
+                    if toks and all(t in known_tokens for t in toks):
+                        t0, k0, e0, o0 = bad[0]
+                        for t in toks:
+                            agg.known.append((t, cs["line"], f"cycle {t0} port {k0} expected {e0} observed {o0}"))
+                        excused = True
+                    break
+        if bad and not excused:
             t, k, e, o = bad[0]
             agg.orc.append(dict(case="M " + cs["line"], cycle=t, read_port=k, expected=e, observed=o, header=cs["hdr"],
                                 replay_block=explicit_block(cs, t), what="read data differs from the array oracle"))
         # model / spec tie
-        m = model.get(kv["id"])
-        if m is None:
+        m = model.get(kv["id"]) if not excused else {"lines": None}
+        if excused:
+            pass
+        elif m is None:
             if model:
                 agg.tie.append(dict(case="M " + cs["line"], cycle=-1, what="model driver produced no lines for this case"))
         else:
@@ -571,6 +612,8 @@ def compare(agg, log, model, known_tokens, expect=None):
                     agg.coll.append(dict(case="M " + cs["line"], cycle=t, observed=ln, replay_block=explicit_block(cs, t),
                                          what="after postprocess two write ports of an ordered memory are enabled on the same address in one cycle "
                                               "(hardware has no commit order; the later declared write must win by logic): " + text))
+        if exp and not any(tk == exp for tk, _, _ in agg.known[nknown_before:]):
+            agg.fixed_now.append((exp, cs["line"]))
         if len(agg.samples) < 4 and ncyc >= 20 and (st["fwd_hit"] or st["ww_collision"]):
             agg.samples.append(dict(case="M " + cs["line"], header=cs["hdr"], first_cycles=cs["lines"][1:7]))
 
@@ -650,7 +693,7 @@ def main():
         nshards, n_a, n_b, n_dev = 8, 320, 220, 90
     else:
         nshards, n_a, n_b, n_dev = 16, 4000, 3000, 2000
-    n_large = 4 if tiername == "quick" else 40        # per shard
+    n_large = 3 if tiername == "quick" else 40        # per shard
     shards = []
     for i in range(nshards):
         rng = random.Random(seed * 7919 + i * 104729 + (1 if tiername == "quick" else 2))
